@@ -139,6 +139,11 @@ def excel_rows(source_path, sheet=1):
         raise errors.DataFormatError("cannot read Excel file: %s" % error, location)
     except UnicodeError as error:
         raise errors.DataFormatError("cannot decode Excel data: %s" % error, location)
+    except (errors.CutplaceError, OSError):
+        raise
+    except Exception as error:
+        # A broken container makes xlrd and zipfile fail in many ways, e.g. BadZipFile, struct.error or IndexError.
+        raise errors.DataFormatError("cannot read Excel file: %s: %s" % (type(error).__name__, error), location)
 
 
 def _raise_delimited_data_format_error(delimited_path, reader, error):
